@@ -82,3 +82,34 @@ Definition render (e : endian) (l : list seg) : bytes := concat (map (render_seg
 
 (* the canonical encoding of a message *)
 Definition wire (e : endian) (t : ty) (v : value) : bytes := render e (layout t v 0).
+
+(* ---- the documented exception of C02: greedy tails ---- *)
+(* number of nested unlimited levels at the end of t (0 when t is not unlimited) *)
+Section Unl.
+  Variable dT : ty -> nat.
+  Fixpoint unl_fields (fs : list field) : nat :=
+    match fs with
+    | [] => O
+    | f :: r =>
+        match r with
+        | [] =>
+            match fst f with
+            | FGreedy => 1%nat
+            | FPlain => if stiff_eqb (stiffness (snd f)) Unlimited then S (dT (snd f)) else O
+            | _ => O
+            end
+        | _ => unl_fields r
+        end
+    end.
+End Unl.
+
+Fixpoint unl_depth (t : ty) : nat :=
+  match t with TStruct fs => unl_fields unl_depth fs | _ => O end.
+
+(* bytes of padding that follow the last greedy element: the final paddings of the enclosing
+   structs, which are the last [unl_depth t] segments of the layout *)
+Definition tail_pad (t : ty) (v : value) : Z :=
+  segslen (firstn (unl_depth t) (rev (layout t v 0))).
+
+(* "a greedy array whose tail ends on the enclosing message's alignment boundary" (or no greedy array) *)
+Definition greedy_tail_aligned (t : ty) (v : value) : bool := tail_pad t v =? 0.
